@@ -74,6 +74,10 @@ M += [
  ("opcount-keys-after-pop","pycoin/satoshi/checksigops.py","    vm.op_count += key_count\n","    vm.op_count += len(public_pair_blobs)\n"),
  ("multisig-order","pycoin/satoshi/checksigops.py","    public_pair_blobs = [vm.pop() for _ in range(key_count)]\n    public_pair_blobs.reverse()","    public_pair_blobs = [vm.pop() for _ in range(key_count)]"),
 ]
+M += [
+ ("nullfail-lazy","pycoin/satoshi/checksigops.py","            if any_nonblank:\n","            if (flags & VERIFY_NULLFAIL) and any(len(s) > 0 for s in sig_blobs_remaining + [sig_blob]):\n"),
+ ("wpkh-items-unchecked","pycoin/coins/bitcoin/SegwitChecker.py","                for s in stack:\n                    if len(s) > self.VM.MAX_BLOB_LENGTH:","                for s in (stack if len(witness_program) == 32 else []):\n                    if len(s) > self.VM.MAX_BLOB_LENGTH:"),
+]
 # later entries replace earlier ones of the same name
 M=list({m[0]: m for m in M}.values())
 only=sys.argv[1:] 
